@@ -429,24 +429,35 @@ def epub_doc(chapter_texts):
         z.writestr("mimetype", "application/epub+zip")
         z.writestr("META-INF/container.xml", '<?xml version="1.0"?><container version="1.0" xmlns="urn:oasis:names:tc:opendocument:xmlns:container">'
                                              '<rootfiles><rootfile full-path="OEBPS/content.opf" media-type="application/oebps-package+xml"/></rootfiles></container>')
-        items = "".join(f'<item id="c{i}" href="c{i}.xhtml" media-type="application/xhtml+xml"/>' for i in range(len(chapter_texts)))
+        # a chapter text of None = spine entry whose manifest item is missing (skipped by the extractor)
+        items = "".join(f'<item id="c{i}" href="c{i}.xhtml" media-type="application/xhtml+xml"/>' for i, t in enumerate(chapter_texts) if t is not None)
         refs = "".join(f'<itemref idref="c{i}"/>' for i in range(len(chapter_texts)))
         z.writestr("OEBPS/content.opf", '<?xml version="1.0"?><package xmlns="http://www.idpf.org/2007/opf" version="3.0" unique-identifier="id">'
                                         '<metadata xmlns:dc="http://purl.org/dc/elements/1.1/"><dc:title>T</dc:title><dc:identifier id="id">x</dc:identifier></metadata>'
                                         f'<manifest>{items}</manifest><spine>{refs}</spine></package>')
         for i, t in enumerate(chapter_texts):
+            if t is None:
+                continue
             z.writestr(f"OEBPS/c{i}.xhtml", f'<?xml version="1.0"?><html xmlns="http://www.w3.org/1999/xhtml"><head><title>c{i}</title></head><body><p>{t}</p></body></html>')
     return buf.getvalue()
 
 
 def check_epub(chapter_texts):
     from sharepoint2text.parsing.extractors.epub_extractor import read_epub
-    return _check_doc("epub_extractor.py::read_epub", read_epub, epub_doc(chapter_texts), list(chapter_texts),
-                      {"check": "epub", "chapter_texts": chapter_texts})
+    c = next(read_epub(io.BytesIO(epub_doc(chapter_texts))))
+    obs = observe(c)
+    want = [(k, t) for k, t in enumerate(chapter_texts, start=1) if t is not None]     # number = 1-based spine position
+    ok = [n for n, _t in obs] == [n for n, _t in want] and all(w in t for (_n, t), (_k, w) in zip(obs, want)) \
+        and c.get_full_text() == spec_fulltext(obs)
+    if not ok:
+        return {"target": "epub_extractor.py::read_epub", "inputs": {"check": "epub", "chapter_texts": chapter_texts},
+                "expected": f"one unit per readable spine item, numbered by 1-based spine position: {want!r}; full text == joined unit texts",
+                "observed": f"units={obs!r} full_text={c.get_full_text()!r}", "check": "epub"}
+    return None
 
 
 def sweep_epub():
-    pool = ["Alpha", "", "Beta"]
+    pool = ["Alpha", "", None, "Beta"]
     for n in range(0, 4):
         for st in itertools.product(pool, repeat=n):
             r = check_epub(list(st))
